@@ -26,7 +26,7 @@ P = {
          "Not proved: graphs with tuple cycles; equality of the graph-level specification with the model-level definition (they differ exactly at K-C04-operands). Known findings K-C04-operands and K-WG-cycles delimit where the unmodified code departs from the statement; inner map orders of AssignWeights are sampled, not driven."),
  "C05": ("Same model as C04; theorems in Properties/C05.v: the self-loop rule, refutation witnesses on cyclic models, and the EQUIVALENCE on graphs without cycles for every start order — assignment succeeds iff Spec/GraphWeights.accepts holds of every start node (operand edges present, every edge to a type/wildcard or to an accepted node with a non-empty weight map, intersections keep a common type), soundness and completeness with AssignWeights' own fuel; hypotheses and predicate are evaluated by the extracted model per run and compared with the implementation's verdict per start order; well-foundedness computed on the model (tuple-free cycles, constrained cycles, builder conditions, empty intersections, relations without terminal type) as oracle for the verdict under every explicit start order.",
          "Not proved: the equivalence on graphs with cycles (refuted there: K-WG-cycles). Known findings K-WG-cycles and K-C04-operands."),
- "C06": ("Same model as C04: the only schedule (start order) is an argument of the model; theorems in Properties/C06.v (independence of the order of type definitions; on graphs without cycles the weights do not depend on the start order at all — both orders give the order-free specification); the value semantics the model gives to wildcard lists and weight maps is tied to the code by Gen/Sites.v (every store into a node or edge, regenerated per run; theorem: none shares another object's list or map); all outcomes of a model (explicit orders, repeated unhooked Build, permuted type definitions) compared; histories: one builder object building sequences of different models, sequentially and concurrently, against a fresh builder per model.",
+ "C06": ("Same model as C04: the only schedule (start order) is an argument of the model; no package-level state and no cache field on the builder (Gen/Globals.v, regenerated per run); operands of unions/intersections reordered in the check; theorems in Properties/C06.v (independence of the order of type definitions; on graphs without cycles the weights do not depend on the start order at all — both orders give the order-free specification); the value semantics the model gives to wildcard lists and weight maps is tied to the code by Gen/Sites.v (every store into a node or edge, regenerated per run; theorem: none shares another object's list or map); all outcomes of a model (explicit orders, repeated unhooked Build, permuted type definitions) compared; histories: one builder object building sequences of different models, sequentially and concurrently, against a fresh builder per model.",
          "Inner map iteration orders and concurrency are sampled by repetition; known finding K-WG-cycles."),
  "C07": ("Coq transcription of TransformModuleFilesToModel (Model/Merge.v) over the parser model; theorems in Properties/C07.v, among them THE EQUIVALENCE: for every list of module files as the parser delivers them (decidable well-formedness, evaluated per run) merge succeeds iff the list is conflict-free in the order-free sense of Spec/MergeSpec.v, and on success returns the declared types in file order with exactly the contributed relation names and the attributed conditions (Proofs/MergeIff.v), and THE CONTENT: every declared relation reads back with its rewrite unchanged, a definition's relation with its metadata, an extension's relation with the extending file, every type with the module and file of its definition, nothing else present (Proofs/MergeContent.v); the decidable form of the specification is evaluated by the extracted model on every generated set and compared with the implementation's verdict; correspondence on generated module sets with a catalogue of injected conflicts; "
          "conflict-freedom and the exact attributed union computed from the generator's syntax trees as oracle.",
@@ -41,7 +41,7 @@ P = {
          "Known finding K-WG-cycles delimits the unproved cyclic part."),
  "C12": ("Model/Merge.merge takes no iteration-order argument (after repair F5); theorems in Properties/C12.v: conflict-freedom is invariant under permutation of the files, hence permuting the list never changes whether the merge succeeds (for every list), and on success the permuted list yields the same model up to the order of type definitions and map enumeration: same schema, permuted type names, identical module/file/rewrite/metadata/condition readings (Proofs/MergeContent.v); each list merged repeatedly in one process, all permutations of small lists, correspondence per permutation.",
          "The well-formedness of parser output is itself a theorem (every list of files with distinct names). Not proved: that a successful merge of a permuted list returns the same types up to order (observed per run). Go map order is sampled by repetition."),
- "C13": ("Frame theorems in Properties/C13.v; argument-after-call observables for the printer, both graph builders and the merge; the same batch of calls in two orders, after warm-up and from 16 goroutines compared result by result; one shared model from 8 goroutines, also under the Go race detector.",
+ "C13": ("Frame theorems in Properties/C13.v, and two facts about the source text that are regenerated from the working tree on every run (run/gen_globals.py -> Gen/Globals.v): the hand-written Go packages have no package-level variable that could hold data between calls (error sentinels and interface assertions only) and the graph-builder objects have exactly the fields of the pinned tree (no cache field); argument-after-call observables for the printer, both graph builders and the merge; the same batch of calls in two orders, after warm-up and from 16 goroutines compared result by result; one shared model from 8 goroutines, also under the Go race detector.",
          "Partial by nature: data races and ANTLR cache state are outside any Gallina model; the race detector run is supporting evidence."),
  "C14": ("Theorems in Properties/C14.v about the printer's sort (sortByModule is a total order on distinct names, so output is independent of input order) and about the source-information comments: they never change the verdict, and the output with comments is the plain output decorated with ' # ...' segments before line breaks, so that cutting comments line by line gives the same lines, the pre-pass of ParseDSL sees the same text and both outputs parse to the same result (for every model whose module and file names contain no line break); output bytes compared across repeated calls, permuted models, JSON with shuffled keys; comment stripping and re-parse of the source-information output.",
          "Names without line breaks."),
